@@ -39,10 +39,10 @@ open Avro Avro.Impl Avro.Spec
     for a value `v` that the presentation denotes.  `f` lists what the presentation is permitted
     (negative integers, `seq`/`map` with an uncovering length); nodes on which a permitted
     presentation would not be canonical are excluded from the schema (`nodeAllows`). -/
-theorem C01_ser_canonical (ac : Bool) (f : Canon.Allow) (ext : Ext) (allowSlow : Bool)
+theorem C01_ser_canonical (f : Canon.Allow) (ext : Ext) (allowSlow : Bool)
     (S : Schema) (node : Node) (sv : SV) (s : SerState)
     (hok : (ser ext allowSlow S node sv s).1 = .ok ())
-    (hs : Good s) (hS : SchemaOK ac S) (hnode : NodeOK ac S node) (hsv : svOK ac sv = true)
+    (hs : Good s) (hS : SchemaOK S) (hnode : NodeOK S node) (hsv : svOK sv = true)
     (hext : ExtOK ext)
     (hcanon : Canon.svCanon f sv = true)
     (hallowS : ∀ (k : Nat) (n : Node), S[k]? = some n → Canon.nodeAllows f n = true)
@@ -55,25 +55,25 @@ theorem C01_ser_canonical (ac : Bool) (f : Canon.Allow) (ext : Ext) (allowSlow :
 
 /-- No permission asked (`{}`: no negative integer, every `seq`/`map` advertises a covering
     length): exactly the hypotheses of `C02_sound_strong` plus `svCanon {} sv`. -/
-theorem C01_ser_canonical_strict (ac : Bool) (ext : Ext) (allowSlow : Bool) (S : Schema)
+theorem C01_ser_canonical_strict (ext : Ext) (allowSlow : Bool) (S : Schema)
     (node : Node) (sv : SV) (s : SerState)
     (hok : (ser ext allowSlow S node sv s).1 = .ok ())
-    (hs : Good s) (hS : SchemaOK ac S) (hnode : NodeOK ac S node) (hsv : svOK ac sv = true)
+    (hs : Good s) (hS : SchemaOK S) (hnode : NodeOK S node) (hsv : svOK sv = true)
     (hext : ExtOK ext) (hcanon : Canon.svCanon {} sv = true) :
     ∃ s' v bytes, ser ext allowSlow S node sv s = (.ok (), s') ∧ s'.out = s.out ++ bytes ∧ Good s' ∧
       Spec.encode S node v = some bytes ∧
       Spec.denotes (denExtOf ext) S node sv v = true :=
-  C01_ser_canonical ac {} ext allowSlow S node sv s hok hs hS hnode hsv hext hcanon
+  C01_ser_canonical {} ext allowSlow S node sv s hok hs hS hnode hsv hext hcanon
     (fun _ n _ => Canon.nodeAllows_strict n) (Canon.nodeAllows_strict node)
 
 /-- The same with the decidable schema checks of `C02_sound_partial`. -/
-theorem C01_ser_canonical_checks (ac : Bool) (f : Canon.Allow) (ext : Ext) (allowSlow : Bool)
+theorem C01_ser_canonical_checks (f : Canon.Allow) (ext : Ext) (allowSlow : Bool)
     (S : Schema) (node : Node) (sv : SV) (o : Bytes) (p : Pool)
     (hok : (ser ext allowSlow S node sv { out := o, budget := none, pool := p }).1 = .ok ())
     (hp : PoolClean p) (hk : S.keysInBounds = true) (hd : schemaNamesDistinct S = true)
     (hsmall : schemaSmall S = true) (hnn : schemaNoNestedUnion S = true)
-    (hchar : schemaCharOK ac S = true) (hnode : nodeOKb ac S node = true)
-    (hsv : svOK ac sv = true) (hext : ExtOK ext)
+    (hnode : nodeOKb S node = true)
+    (hsv : svOK sv = true) (hext : ExtOK ext)
     (hcanon : Canon.svCanon f sv = true)
     (hallowS : Canon.schemaAllows f S = true) (hallowN : Canon.nodeAllows f node = true) :
     ∃ v bytes,
@@ -82,8 +82,8 @@ theorem C01_ser_canonical_checks (ac : Bool) (f : Canon.Allow) (ext : Ext) (allo
       Spec.denotes (denExtOf ext) S node sv v = true ∧
       PoolClean (ser ext allowSlow S node sv { out := o, budget := none, pool := p }).2.pool := by
   obtain ⟨s', v, bytes, hrun, hout, hg, henc, hden⟩ :=
-    C01_ser_canonical ac f ext allowSlow S node sv { out := o, budget := none, pool := p } hok
-      ⟨rfl, hp⟩ (SchemaOK.of_checks hk hd hsmall hnn hchar) (NodeOK.of_check hnode) hsv hext hcanon
+    C01_ser_canonical f ext allowSlow S node sv { out := o, budget := none, pool := p } hok
+      ⟨rfl, hp⟩ (SchemaOK.of_checks hk hd hsmall hnn) (NodeOK.of_check hnode) hsv hext hcanon
       (fun _ _ hk' => Array.all_getElem? hallowS hk') hallowN
   exact ⟨v, bytes, by rw [hrun]; exact hout, henc, hden, by rw [hrun]; exact hg.2⟩
 
@@ -101,10 +101,10 @@ theorem C01_canonical_decodes (S : Schema) (node : Node) (v : Value) (bytes : By
     denotes, and leaves exactly what followed.  The side conditions of `C01_de_accepts` that
     speak about the value (`observe` defined, nesting depth, sequence lengths, fuel) are stated on
     that `v`; the one about decimals on `fixed` is stated on the schema. -/
-theorem C01_roundtrip_impl (ac : Bool) (f : Canon.Allow) (ext : Ext) (allowSlow : Bool)
+theorem C01_roundtrip_impl (f : Canon.Allow) (ext : Ext) (allowSlow : Bool)
     (S : Schema) (node : Node) (sv : SV) (s₀ : SerState)
     (hok : (ser ext allowSlow S node sv s₀).1 = .ok ())
-    (hs : Good s₀) (hS : SchemaOK ac S) (hnode : NodeOK ac S node) (hsv : svOK ac sv = true)
+    (hs : Good s₀) (hS : SchemaOK S) (hnode : NodeOK S node) (hsv : svOK sv = true)
     (hext : ExtOK ext)
     (hcanon : Canon.svCanon f sv = true)
     (hallowS : ∀ (k : Nat) (n : Node), S[k]? = some n → Canon.nodeAllows f n = true)
@@ -119,7 +119,7 @@ theorem C01_roundtrip_impl (ac : Bool) (f : Canon.Allow) (ext : Ext) (allowSlow 
           r.isSlice = true → r.limit = none → r.avail = 0 → r.rest = bytes ++ rest →
           de deExtModel cfg S fuel node depth false .any r = (.ok o, { r with rest := rest }) := by
   obtain ⟨s', v, bytes, hrun, hout, _, henc, hden⟩ :=
-    C01_ser_canonical ac f ext allowSlow S node sv s₀ hok hs hS hnode hsv hext hcanon hallowS hallowN
+    C01_ser_canonical f ext allowSlow S node sv s₀ hok hs hS hnode hsv hext hcanon hallowS hallowN
   refine ⟨s', bytes, v, hrun, hout, henc, hden, ?_⟩
   intro cfg depth o hobs hdepth hseq fuel hfuel rest r hsl hl ha hr
   exact C01_de_accepts_schema cfg S node v bytes rest o depth henc hobs hfixS hfixN hdepth hseq
@@ -128,10 +128,10 @@ theorem C01_roundtrip_impl (ac : Bool) (f : Canon.Allow) (ext : Ext) (allowSlow 
 /-- The round trip with the limits stated on the presentation: if every value the presentation
     denotes is observable and within the deserializer's depth and length limits, then `de` on the
     bytes `ser` wrote returns the observation of such a value and leaves `rest`. -/
-theorem C01_roundtrip_impl_bounded (ac : Bool) (f : Canon.Allow) (ext : Ext) (allowSlow : Bool)
+theorem C01_roundtrip_impl_bounded (f : Canon.Allow) (ext : Ext) (allowSlow : Bool)
     (cfg : DeConfig) (S : Schema) (node : Node) (sv : SV) (s₀ : SerState) (depth : Nat)
     (hok : (ser ext allowSlow S node sv s₀).1 = .ok ())
-    (hs : Good s₀) (hS : SchemaOK ac S) (hnode : NodeOK ac S node) (hsv : svOK ac sv = true)
+    (hs : Good s₀) (hS : SchemaOK S) (hnode : NodeOK S node) (hsv : svOK sv = true)
     (hext : ExtOK ext)
     (hcanon : Canon.svCanon f sv = true)
     (hallowS : ∀ (k : Nat) (n : Node), S[k]? = some n → Canon.nodeAllows f n = true)
@@ -146,7 +146,7 @@ theorem C01_roundtrip_impl_bounded (ac : Bool) (f : Canon.Allow) (ext : Ext) (al
         de deExtModel cfg S fuel node depth false .any { rest := bytes ++ rest } =
           (.ok o, { rest := rest }) := by
   obtain ⟨s', bytes, v, hrun, hout, _, hden, hde⟩ :=
-    C01_roundtrip_impl ac f ext allowSlow S node sv s₀ hok hs hS hnode hsv hext hcanon hallowS hallowN
+    C01_roundtrip_impl f ext allowSlow S node sv s₀ hok hs hS hnode hsv hext hcanon hallowS hallowN
       hfixS hfixN
   obtain ⟨hobs, hdepth, hseq⟩ := hlim v hden
   obtain ⟨o, ho⟩ := Option.isSome_iff_exists.1 hobs
@@ -211,14 +211,14 @@ open C01glue
 
 def Sarr : Schema := #[.int]
 
-theorem Sarr_ok (ac : Bool) : SchemaOK ac Sarr :=
+theorem Sarr_ok : SchemaOK Sarr :=
   SchemaOK.of_checks (by simp [Schema.keysInBounds, Sarr, Node.children])
     (by simp [schemaNamesDistinct, Sarr, nodeNamesDistinct]) (by simp [schemaSmall, Sarr, nodeSmall])
-    (by simp [schemaNoNestedUnion, Sarr, nodeNoNestedUnion]) (by simp [schemaCharOK, Sarr, nodeCharOK])
+    (by simp [schemaNoNestedUnion, Sarr, nodeNoNestedUnion])
 
-theorem Sarr_array_ok (ac : Bool) : NodeOK ac Sarr (.array 0) :=
+theorem Sarr_array_ok : NodeOK Sarr (.array 0) :=
   NodeOK.of_check (by simp [nodeOKb, Sarr, Node.children, nodeNamesDistinct, nodeSmall,
-    nodeNoNestedUnion, nodeCharOK])
+    nodeNoNestedUnion])
 
 theorem Sarr_noncanonical : ∀ v, Spec.encode Sarr (.array 0) v ≠ some [2, 2, 2, 4, 0] := by
   have h0 : Sarr[0]? = some .int := by decide
@@ -232,12 +232,12 @@ theorem Sarr_noncanonical : ∀ v, Spec.encode Sarr (.array 0) v ≠ some [2, 2,
 theorem C01_counterexample_seq_none :
     ser ext1 false Sarr (.array 0) (.seq none [.int .i32 1, .int .i32 2]) {} =
       (.ok (), { out := [2, 2, 2, 4, 0] }) ∧
-    Good {} ∧ SchemaOK false Sarr ∧ NodeOK false Sarr (.array 0) ∧
-    svOK false (.seq none [.int .i32 1, .int .i32 2]) = true ∧ ExtOK ext1 ∧
+    Good {} ∧ SchemaOK Sarr ∧ NodeOK Sarr (.array 0) ∧
+    svOK (.seq none [.int .i32 1, .int .i32 2]) = true ∧ ExtOK ext1 ∧
     Canon.svCanon {} (.seq none [.int .i32 1, .int .i32 2]) = false ∧
     ∀ v, Spec.encode Sarr (.array 0) v ≠ some [2, 2, 2, 4, 0] := by
   have h0 : Sarr[0]? = some .int := by decide
-  refine ⟨?_, good_empty, Sarr_ok _, Sarr_array_ok _, by decide, ext1_ok, by decide,
+  refine ⟨?_, good_empty, Sarr_ok, Sarr_array_ok, by decide, ext1_ok, by decide,
     Sarr_noncanonical⟩
   simp [ser, seqStart, viaUnion, seqStartAt, nodeAt, h0, bind, pure, blockNew, serElems,
     blockSignal, writeVarI64, writeAll, serInteger, seqFinish, seqEnd, seqDrop, blockEnd,
@@ -248,7 +248,7 @@ theorem C01_counterexample_seq_none :
 theorem C01_counterexample_seq_short :
     ser ext1 false Sarr (.array 0) (.seq (some 1) [.int .i32 1, .int .i32 2]) {} =
       (.ok (), { out := [2, 2, 2, 4, 0] }) ∧
-    svOK false (.seq (some 1) [.int .i32 1, .int .i32 2]) = true ∧
+    svOK (.seq (some 1) [.int .i32 1, .int .i32 2]) = true ∧
     Canon.svCanon {} (.seq (some 1) [.int .i32 1, .int .i32 2]) = false ∧
     ∀ v, Spec.encode Sarr (.array 0) v ≠ some [2, 2, 2, 4, 0] := by
   have h0 : Sarr[0]? = some .int := by decide
@@ -260,8 +260,8 @@ theorem C01_counterexample_seq_short :
 /-- Without `svCanon` the statement of `C01_ser_canonical` is false. -/
 theorem C01_ser_canonical_needs_svCanon :
     ¬ (∀ (ext : Ext) (allowSlow : Bool) (S : Schema) (node : Node) (sv : SV) (s : SerState),
-      (ser ext allowSlow S node sv s).1 = .ok () → Good s → SchemaOK false S → NodeOK false S node →
-      svOK false sv = true → ExtOK ext →
+      (ser ext allowSlow S node sv s).1 = .ok () → Good s → SchemaOK S → NodeOK S node →
+      svOK sv = true → ExtOK ext →
       ∃ s' v bytes, ser ext allowSlow S node sv s = (.ok (), s') ∧ s'.out = s.out ++ bytes ∧
         Spec.encode S node v = some bytes) := by
   intro h
@@ -310,7 +310,7 @@ def nodeDB : Node := .decimal 0 10 .bytes
     encoding of `decimal -1` is `[2, 0xFF]`. All other hypotheses hold, `svCanon { negInt := true }` included. -/
 theorem C01_counterexample_negative_decimal :
     ser ext1 false #[] nodeDB (.int .i32 (-1)) {} = (.ok (), { out := 32 :: List.replicate 16 255 }) ∧
-    Good {} ∧ SchemaOK false #[] ∧ NodeOK false #[] nodeDB ∧ svOK false (.int .i32 (-1)) = true ∧
+    Good {} ∧ SchemaOK #[] ∧ NodeOK #[] nodeDB ∧ svOK (.int .i32 (-1)) = true ∧
     Canon.svCanon { negInt := true } (.int .i32 (-1)) = true ∧ Canon.svCanon {} (.int .i32 (-1)) = false ∧
     Canon.nodeAllows { negInt := true } nodeDB = false ∧
     ∀ v, Spec.encode #[] nodeDB v ≠ some (32 :: List.replicate 16 255) := by
@@ -320,7 +320,7 @@ theorem C01_counterexample_negative_decimal :
       writeVarI64, writeAll, bind, ev16]
   · intro k n hk; simp at hk
   · exact NodeOK.of_check (by simp [nodeOKb, nodeDB, Node.children, nodeNamesDistinct, nodeSmall,
-      nodeNoNestedUnion, nodeCharOK])
+      nodeNoNestedUnion])
   · have e : (32 :: List.replicate 16 255 : Bytes) = lenPrefixed (List.replicate 16 255) ++ [] := by
       simp [lenPrefixed, el16]
     have hv : fromTwosComplementBE (List.replicate 16 255) = -1 := by decide
@@ -336,8 +336,8 @@ theorem C01_counterexample_negative_decimal :
     above), `svCanon { negInt := true }` granted. -/
 theorem C01_ser_canonical_needs_nonneg :
     ¬ (∀ (ext : Ext) (allowSlow : Bool) (S : Schema) (node : Node) (sv : SV) (s : SerState),
-      (ser ext allowSlow S node sv s).1 = .ok () → Good s → SchemaOK false S → NodeOK false S node →
-      svOK false sv = true → ExtOK ext → Canon.svCanon { negInt := true } sv = true →
+      (ser ext allowSlow S node sv s).1 = .ok () → Good s → SchemaOK S → NodeOK S node →
+      svOK sv = true → ExtOK ext → Canon.svCanon { negInt := true } sv = true →
       ∃ s' v bytes, ser ext allowSlow S node sv s = (.ok (), s') ∧ s'.out = s.out ++ bytes ∧
         Spec.encode S node v = some bytes) := by
   intro h
@@ -367,15 +367,14 @@ def svR : SV :=
 
 def vR : Value := .record [.array [.long 1, .long (-3)], .union 1 (.string "x")]
 
-theorem Sx_ok : SchemaOK false Sx :=
+theorem Sx_ok : SchemaOK Sx :=
   SchemaOK.of_checks (by simp [Schema.keysInBounds, Sx, Node.children])
     (by simp [schemaNamesDistinct, Sx, nodeNamesDistinct]) (by simp [schemaSmall, Sx, nodeSmall])
     (by simp [schemaNoNestedUnion, Sx, nodeNoNestedUnion])
-    (by simp [schemaCharOK, Sx, nodeCharOK])
 
-theorem nodeR_ok : NodeOK false Sx nodeR :=
+theorem nodeR_ok : NodeOK Sx nodeR :=
   NodeOK.of_check (by simp [nodeOKb, nodeR, Sx, Node.children, nodeNamesDistinct, nodeSmall,
-    nodeNoNestedUnion, nodeCharOK])
+    nodeNoNestedUnion])
 
 theorem Sx_allows (f : Canon.Allow) (h : f.openSeq = false) :
     ∀ (k : Nat) (n : Node), Sx[k]? = some n → Canon.nodeAllows f n = true := by
@@ -417,7 +416,7 @@ theorem vR_encode : Spec.encode Sx nodeR vR = some [4, 2, 5, 0, 2, 2, 120] := by
 example : ∃ s' v bytes, ser ext1 false Sx nodeR svR {} = (.ok (), s') ∧ s'.out = [] ++ bytes ∧
     Good s' ∧ Spec.encode Sx nodeR v = some bytes ∧
     Spec.denotes (denExtOf ext1) Sx nodeR svR v = true :=
-  C01_ser_canonical false { negInt := true } ext1 false Sx nodeR svR {} (by rfl) good_empty Sx_ok
+  C01_ser_canonical { negInt := true } ext1 false Sx nodeR svR {} (by rfl) good_empty Sx_ok
     nodeR_ok (by decide) ext1_ok (by decide) (Sx_allows _ rfl) (by decide)
 
 /-- `serialize_map(None)` with two entries (serde `flatten`) onto the record: accepted with the
@@ -428,7 +427,7 @@ example : ∃ s' v bytes,
     s'.out = [] ++ bytes ∧ Good s' ∧ Spec.encode Sx nodeR v = some bytes ∧
     Spec.denotes (denExtOf ext1) Sx nodeR
       (.map none [(.str "u", .none), (.str "a", .seq (some 1) [.int .i64 7])]) v = true :=
-  C01_ser_canonical false { openMap := true } ext1 false Sx nodeR _ {} (by rfl) good_empty Sx_ok
+  C01_ser_canonical { openMap := true } ext1 false Sx nodeR _ {} (by rfl) good_empty Sx_ok
     nodeR_ok (by decide) ext1_ok (by decide) (Sx_allows _ rfl) (by decide)
 
 /-- Part 2 on the example, made fully concrete: the value is `vR` (the canonical encoding
@@ -441,7 +440,7 @@ example (rest : Bytes) :
         (.ok (.map [(.str "a" false, .seq [.i64 1, .i64 (-3)]), (.str "u" false, .str "x" true)]),
           { rest := rest }) := by
   obtain ⟨s', bytes, v, hrun, hout, henc, hden, hde⟩ :=
-    C01_roundtrip_impl false { negInt := true } ext1 false Sx nodeR svR {} (by rfl) good_empty Sx_ok
+    C01_roundtrip_impl { negInt := true } ext1 false Sx nodeR svR {} (by rfl) good_empty Sx_ok
       nodeR_ok (by decide) ext1_ok (by decide) (Sx_allows _ rfl) (by decide) Sx_fixedDecFits (by decide)
   have hb : bytes = [4, 2, 5, 0, 2, 2, 120] := by
     have := svR_run
